@@ -49,7 +49,7 @@ def run(ctx):
     ctx.check("C02-R3", "into_session keeps stream and request", sg == ["return streams::Stream(self.stream,<impl Stream<BiRemote, H3>>::into_session(self.proto,session_request))"], "driver into_session changed: %s" % sg, where(f))
     f = A.find1(r"^wtransport_proto::stream::biremote::<impl .*BiRemote, wtransport_proto::stream::types::H3>>::into_session$")
     sg = [path_sig(p)[1] for p in nonpanic(walk(f))]
-    ctx.check("C02-R3", "proto into_session stores the request", sg == ["return stream::Stream(Bi,Session::new(session_request))"], "proto into_session changed: %s" % sg, where(f))
+    ctx.check("C02-R3", "proto into_session stores the request", sg == ["return stream::Stream(Bi,Session(session_request))"], "proto into_session changed: %s" % sg, where(f))
     f = A.fn("wtransport_proto::headers::Headers::with_frame")
     sg = sorted(path_sig(p)[1] for p in nonpanic(walk(f)))
     ctx.check("C02-R3", "Headers::with_frame = decode(payload)", any(re.match(r"^return Result::Ok\(Headers\(ok\(Decoder::decode\(Frame::payload\(frame\)\)\)\)\)$", l) for l in sg),
@@ -169,17 +169,27 @@ def run(ctx):
               "bichannel does not pair the sender of each channel with the receiver of the other: %s" % lf, where(fn))
     table = {
         r"^wtransport::driver::utils::BiChannelEndpoint::send::\{closure#0\}$": (r"^return Result::map_err\(await\(Sender::send\(self\.sender,value\)\),closure:[^()]*\)$", []),
-        r"^wtransport::driver::utils::BiChannelEndpoint::try_send$": (r"^return Result::map_err\(Sender::try_send\(self\.sender,value\),closure:[^()]*\)$", []),
         r"^wtransport::driver::utils::BiChannelEndpoint::recv::\{closure#0\}$": (r"^return await\(Receiver::recv\(await\(Mutex::lock\(self\.receiver\)\)\)\)$", []),
     }
     shared.forwarders(ctx, "C02-R10", table, "bichannel")
+    fn = A.fn("wtransport::driver::utils::BiChannelEndpoint::try_send")
+    TS = "Sender::try_send(self.sender,value)"
+    sg = sorted(path_sig(p) for p in nonpanic(walk(fn)))
+    okm = [l for _, l in sg] == ["return Result::map_err(%s,closure:BiChannelEndpoint::{closure#0})" % TS]   # the closure keeps Full / Closed and the value (below)
+    okx = sorted(l for _, l in sg) == sorted(["return Result::Ok(())", "return Result::Err(TrySendError::Full((err(%s) as Full).0))" % TS, "return Result::Err(TrySendError::Closed((err(%s) as Closed).0))" % TS])
+    ctx.check("C02-R10", "bichannel|BiChannelEndpoint::try_send", okm or okx, "BiChannelEndpoint::try_send does not forward to the sender's try_send keeping Full / Closed and the value: %s" % sg, where(fn))
+    if okm:
+        cl = A.fn("wtransport::driver::utils::BiChannelEndpoint::try_send::{closure#0}")
+        sgc = sorted(path_sig(p) for p in nonpanic(walk(cl)))
+        ctx.check("C02-R10", "bichannel|try_send error map", sgc == sorted([(("error is Full",), "return TrySendError::Full((error as Full).0)"), (("error is Closed",), "return TrySendError::Closed((error as Closed).0)")]),
+                  "BiChannelEndpoint::try_send's error map does not keep Full / Closed and the value: %s" % sgc, where(cl))
 
     ctx.rule("C02-R11", "server accept pipeline: the SessionRequest handed to the application wraps the very session stream the driver accepted, on the same connection and driver")
     fn = A.find1(r"^wtransport::endpoint::IncomingSessionFuture::accept::\{closure#0\}$")
     DRV = r"Driver::init\(<Connection as Clone>::clone\(quic_connection\)\)"
     rows = [
         {"name": "settings, then session -> SessionRequest over the accepted stream", "atoms": [r"^await\(Driver::accept_settings\(%s\)\) ok$" % DRV, r"^await\(Driver::accept_session\(%s\)\) ok$" % DRV],
-         "leaf": r"^return Result::Ok\(SessionRequest::new\(quic_connection,%s,ok\(await\(Driver::accept_session\(%s\)\)\)\)\)$" % (DRV, DRV)},
+         "leaf": r"^return Result::Ok\(SessionRequest\(quic_connection,%s,ok\(await\(Driver::accept_session\(%s\)\)\)\)\)$" % (DRV, DRV)},
         {"name": "no session -> the driver's error", "atoms": [r"^await\(Driver::accept_session\(%s\)\) fails$" % DRV],
          "leaf": r"^return Result::Err\(ConnectionError::with_driver_error\(err\(await\(Driver::accept_session\(%s\)\)\),quic_connection\)\)$" % DRV},
         {"name": "no settings -> the driver's error", "atoms": [r"^await\(Driver::accept_settings\(%s\)\) fails$" % DRV],
